@@ -130,6 +130,16 @@ def decide(spec, tier, seed):
             spec.wide_cfgs = None if (unknown or not cfgs) else sorted(cfgs)
         log("[%s] source ties: %d modules established, %d not" % (pid, len(ties["established"]), len(ties["not_established"])))
 
+    # machine integers: the overflow-checked copies of the translated functions equal the model on the property's domain
+    ovf = None
+    if ok and lean_ok and spec.src_overflow:
+        ovf = core.source_ties(spec.src_overflow)
+        if ovf["not_established"]:
+            notes.append("overflow_freedom_not_established: the theorems `overflow-checked translated source = model` no longer check "
+                         "for %s; on this run `Go int = unbounded Int` is an idealisation of the model for that code (the "
+                         "correspondence streams still run the real 64-bit arithmetic)" % ", ".join(sorted(ovf["not_established"])))
+        log("[%s] overflow-freedom: %d modules established, %d not" % (pid, len(ovf["established"]), len(ovf["not_established"])))
+
     # correspondence + direct evaluation of the property on the real code
     rng = random.Random(seed * 1000003 + int(pid[1:]))
     results = []
@@ -278,6 +288,9 @@ def decide(spec, tier, seed):
     n_tie = sum(len(v["theorems"]) + v["examples"] for v in ties["established"].values()) if ties else 0
     obligations += n_tie
     discharged += n_tie
+    n_ovf = sum(len(v["theorems"]) + v["examples"] for v in ovf["established"].values()) if ovf else 0
+    obligations += n_ovf
+    discharged += n_ovf
     ev = {
         "property_id": pid, "tier": tier, "seed": seed, "level": "proof",
         "coverage": {
@@ -317,6 +330,13 @@ def decide(spec, tier, seed):
                         "itself, the correspondence streams of this run were widened to the thorough size instead.",
                 "translated_functions": ties["translated_functions"],
                 "established": ties["established"], "not_established": ties["not_established"], "broken_files": ties.get("broken_files", [])} if ties else None),
+            "overflow_freedom": ({
+                "what": "next to every translated function f, Gen/Src.lean carries a copy f_chk in which every int / int64 +, -, *, unary - and "
+                        "non-constant / goes through GoSem.chk64 (none when the exact result leaves 64 bits); the theorems under established "
+                        "prove f_chk = model on the stated domain (utils.Div/Mod/Divmod: every 64-bit pair the property admits; calendars: "
+                        "|jd| <= 10^9, |year| <= 10^8), so there the machine arithmetic of today's source IS the model's unbounded arithmetic. "
+                        "not_established: no alarm and nothing widened; the idealisation is then stated, not discharged.",
+                "established": ovf["established"], "not_established": ovf["not_established"]} if ovf else None),
             "known_findings_seen": {kid: n for kid, (k, n) in known_hits.items()},
             "broken": broken[:10],
             "notes": notes,
